@@ -259,8 +259,12 @@ func escapeAnalysis(fn *ssa.Function) *escInfo {
 						escape(e.origins[in.Value])
 					}
 				case *ssa.MakeClosure:
-					for _, bnd := range in.Bindings {
-						escape(e.origins[bnd])
+					// a closure that is only ever called directly, and whose body only reads and writes its captured
+					// variables (never hands their addresses on), keeps them as private as they were
+					if !closureKeepsBindingsLocal(in) {
+						for _, bnd := range in.Bindings {
+							escape(e.origins[bnd])
+						}
 					}
 					setExt(in)
 				case *ssa.Send:
